@@ -52,6 +52,11 @@ fn child(args: &[String]) -> i32 {
         let _ = writeln!(o, "EV {s}");
         let _ = o.flush();
     }
+    if program == "ghost" {
+        // a former owner that died without clearing its flag: runs free, before the exploration
+        let r = PidFileLocking::lsp(&file).lock();
+        return if r.is_ok() { 0 } else { 4 };
+    }
     forc_util::fs_locking::verif::set_step(Box::new(|label| gate(label)));
     gate("start");
     match program {
@@ -132,6 +137,8 @@ struct Trace {
     events: Vec<Event>,
     crashed: Vec<(usize, usize)>, // (proc, seq)
     states: Vec<u64>,
+    /// after every step: (events so far, a flag naming a LIVE process exists, directory contents)
+    snapshots: Vec<(usize, bool, String)>,
 }
 
 static RUN_COUNTER: AtomicU64 = AtomicU64::new(0);
@@ -240,12 +247,27 @@ fn hash(s: &str) -> u64 {
 }
 
 /// One execution of `programs` following the choice prefix.
-fn execute(programs: &[&str], allow_crash: &[bool], prefix: &[usize], work: &Path) -> (Vec<Point>, Trace) {
+fn execute(programs: &[&str], allow_crash: &[bool], prefix: &[usize], work: &Path, stale: bool) -> (Vec<Point>, Trace) {
     let id = RUN_COUNTER.fetch_add(1, Ordering::Relaxed);
     let home = work.join(format!("h{id}"));
     let _ = std::fs::remove_dir_all(&home);
     std::fs::create_dir_all(home.join(".forc").join(".lsp-locks")).unwrap();
     let file = "/proj/src/main.sw";
+    if stale {
+        // initial state: the flag of an owner that has died (written by the real code)
+        let st = Command::new(std::env::current_exe().unwrap())
+            .arg("child")
+            .arg("ghost")
+            .arg(file)
+            .env("HOME", &home)
+            .stdin(Stdio::null())
+            .stdout(Stdio::null())
+            .stderr(Stdio::null())
+            .status();
+        if !matches!(st, Ok(s) if s.success()) || dir_state(&home, &[]) != "pid?" {
+            vhcore::machinery_failure("could not set up the stale flag");
+        }
+    }
     let mut procs: Vec<Proc> = programs.iter().map(|p| spawn(p, &home, file)).collect();
     let mut trace = Trace::default();
     // every child announces STEP start first
@@ -344,9 +366,15 @@ fn execute(programs: &[&str], allow_crash: &[bool], prefix: &[usize], work: &Pat
             running = Some(p);
         }
         let st: Vec<String> = procs.iter().map(|p| format!("{:?}", p.st)).collect();
-        trace
-            .states
-            .push(hash(&format!("{}|{}", dir_state(&home, &pids), st.join(";"))));
+        let dir = dir_state(&home, &pids);
+        let live_flag = dir.split(',').any(|it| {
+            it.strip_prefix("pid#")
+                .and_then(|i| i.parse::<usize>().ok())
+                .map(|i| matches!(procs[i].st, St::Waiting(_)))
+                .unwrap_or(false)
+        });
+        trace.snapshots.push((trace.events.len(), live_flag, dir.clone()));
+        trace.states.push(hash(&format!("{}|{}", dir, st.join(";"))));
     }
     for p in procs.iter_mut() {
         let _ = p.child.kill();
@@ -396,6 +424,47 @@ fn judge(programs: &[&str], t: &Trace) -> Vec<(String, String)> {
         }
     }
     let multi_lockers = programs.iter().filter(|p| **p == "owner" || **p == "holder").count() > 1;
+    let kind = if multi_lockers { "two-lockers" } else { "single-locker" };
+    // (s) state invariant = the instantaneous checker: whenever some process is inside its lock
+    // window (lock() returned Ok, release not begun, alive), the lock directory holds a flag that
+    // names a live process — otherwise a check performed right now would answer "clean"
+    // The class key names the operation that destroyed the flag (the step executed right before the
+    // first violating state) and what it left behind, not the cast of the scenario.
+    let mut reported: Vec<usize> = vec![];
+    for (si, (n_events, live_flag, dir)) in t.snapshots.iter().enumerate() {
+        if *live_flag {
+            continue;
+        }
+        for (wi, (op, ls, le)) in windows.iter().enumerate() {
+            if ls < n_events && (*le == usize::MAX || le >= n_events) && !reported.contains(&wi) {
+                reported.push(wi);
+                let step = t.schedule.get(si).cloned().unwrap_or_default();
+                let by_label = step.split('@').nth(1).unwrap_or("?").to_string();
+                let by_proc: Option<usize> = step.split(" p").nth(1).and_then(|r| r.split('@').next()).and_then(|n| n.parse().ok());
+                let who = if step.starts_with("crash") {
+                    "crash"
+                } else if by_proc == Some(*op) {
+                    "own"
+                } else {
+                    "other"
+                };
+                let left = if dir.is_empty() {
+                    "empty"
+                } else if dir.contains("raw:") {
+                    "unparsable"
+                } else {
+                    "dead-or-foreign-pid"
+                };
+                out.push((
+                    format!("C25|no-live-flag-while-owner-holds|{kind}|by={who}:{by_label}|left={left}"),
+                    format!(
+                        "process {op} ({}) returned Ok from lock() at event {ls} and has not begun release, but after step `{step}` the lock directory holds no flag naming a live process (contents: [{dir}])",
+                        programs[*op]
+                    ),
+                ));
+            }
+        }
+    }
     for (cp, cb, ce, val) in &checks {
         // (a) a live owner's flag must be visible
         for (op, ls, le) in &windows {
@@ -407,7 +476,6 @@ fn judge(programs: &[&str], t: &Trace) -> Vec<(String, String)> {
                     .map(|(_, p)| *p)
                     .collect::<Vec<_>>()
                     .join("+");
-                let kind = if multi_lockers { "two-lockers" } else { "single-locker" };
                 out.push((
                     format!("C25|flag-of-live-owner-invisible|{kind}|third={with}"),
                     format!(
@@ -450,10 +518,12 @@ struct Scenario {
     crash: Vec<bool>,
     preempt: u32,
     fault: u32,
+    /// start from the flag of a dead former owner
+    stale: bool,
 }
 
 fn scenarios(thorough: bool) -> Vec<Scenario> {
-    let sc = |name: &'static str, programs: Vec<&'static str>, crash: Vec<bool>, preempt: u32, fault: u32| Scenario { name, programs, crash, preempt, fault };
+    let sc = |name: &'static str, programs: Vec<&'static str>, crash: Vec<bool>, preempt: u32, fault: u32| Scenario { name, programs, crash, preempt, fault, stale: name.starts_with("stale+") };
     if thorough {
         vec![
             sc("owner|checker", vec!["owner", "checker"], vec![true, false], 99, 1),
@@ -463,6 +533,10 @@ fn scenarios(thorough: bool) -> Vec<Scenario> {
             sc("holder|cleaner|checker", vec!["holder", "cleaner", "checker"], vec![true, false, false], 2, 1),
             sc("owner|checker|checker", vec!["owner", "checker", "checker"], vec![true, false, false], 2, 1),
             sc("holder|owner|checker", vec!["holder", "owner", "checker"], vec![true, false, false], 2, 1),
+            sc("holder|owner", vec!["holder", "owner"], vec![true, true], 3, 1),
+            sc("stale+owner|checker", vec!["owner", "checker"], vec![true, false], 4, 1),
+            sc("stale+owner|cleaner", vec!["owner", "cleaner"], vec![true, false], 4, 1),
+            sc("stale+holder|owner", vec!["holder", "owner"], vec![false, false], 3, 0),
         ]
     } else {
         vec![
@@ -471,6 +545,9 @@ fn scenarios(thorough: bool) -> Vec<Scenario> {
             sc("holder|checker2", vec!["holder", "checker2"], vec![true, false], 2, 1),
             sc("owner|owner", vec!["owner", "owner"], vec![false, false], 1, 0),
             sc("holder|cleaner|checker", vec!["holder", "cleaner", "checker"], vec![false, false, false], 1, 0),
+            sc("holder|owner", vec!["holder", "owner"], vec![false, false], 2, 0),
+            sc("stale+owner|checker", vec!["owner", "checker"], vec![false, false], 2, 0),
+            sc("stale+owner|cleaner", vec!["owner", "cleaner"], vec![false, false], 2, 0),
         ]
     }
 }
@@ -489,7 +566,8 @@ fn run(a: &vhcore::Args) -> i32 {
         let programs = sc.programs.clone();
         let crash = sc.crash.clone();
         let work2 = work.clone();
-        let runf = move |prefix: &[usize]| -> (Vec<Point>, Trace) { execute(&programs, &crash, prefix, &work2) };
+        let stale = sc.stale;
+        let runf = move |prefix: &[usize]| -> (Vec<Point>, Trace) { execute(&programs, &crash, prefix, &work2, stale) };
         let mut viols: Vec<(String, String, Trace)> = vec![];
         let mut local_states = std::collections::BTreeSet::new();
         let mut local_outcomes = vhcore::Distinct::default();
@@ -531,7 +609,7 @@ fn run(a: &vhcore::Args) -> i32 {
             rep.sample(json!({"scenario": sc.name, "schedule": t.schedule, "events": t.events.iter().map(|e| format!("p{}:{}", e.proc, e.what)).collect::<Vec<_>>()}));
         }
         for (k, w, t) in viols {
-            rep.violation(&k, &format!("[{}] {w}", sc.name), json!({"scenario": sc.name, "programs": sc.programs, "schedule": t.schedule, "events": t.events}));
+            rep.violation(&k, &format!("[{}] {w}", sc.name), json!({"scenario": sc.name, "programs": sc.programs, "stale": sc.stale, "schedule": t.schedule, "events": t.events}));
         }
     }
     if outcomes.len() < 2 {
@@ -542,7 +620,7 @@ fn run(a: &vhcore::Args) -> i32 {
     rep.set("transitions", total_points);
     rep.set("traces_validated_against_impl", total_exec);
     rep.set("distinct_nontrivial", outcomes.len() as u64);
-    rep.set("rule", "stateless DFS over all interleavings of the H4 step points of real child processes (real PidFileLocking code, real pids, real `ps`), within the per-scenario preemption and crash bounds (99 = unbounded); states = distinct (lock directory contents, per-process program counter); distinct_nontrivial = distinct event sequences observed");
+    rep.set("rule", "stateless DFS over all interleavings of the H4 step points of real child processes (real PidFileLocking code, real pids, real `ps`), within the per-scenario preemption and crash bounds (99 = unbounded); oracles: every completed is_file_dirty() against the lock windows, and after EVERY step the state invariant 'an owner inside its lock window => the directory holds a flag naming a live process'; `stale+` scenarios start from the flag of a dead former owner written by the real code; states = distinct (lock directory contents, per-process program counter); distinct_nontrivial = distinct event sequences observed");
     rep.set("scenarios", json!(per_scn));
     rep.set("exhaustive", exhaustive);
     rep.assume("sequential consistency at the granularity of one file-system operation (exact for POSIX path operations between processes)");
@@ -562,7 +640,7 @@ fn replay(a: &vhcore::Args) -> i32 {
     let crash = vec![true; progs.len()];
     let mut prefix: Vec<usize> = vec![];
     loop {
-        let (points, t) = execute(&progs, &crash, &prefix, &work);
+        let (points, t) = execute(&progs, &crash, &prefix, &work, r["stale"].as_bool().unwrap_or(false));
         if prefix.len() == want.len() || prefix.len() >= points.len() {
             for e in &t.events {
                 println!("  p{} {}", e.proc, e.what);
